@@ -50,7 +50,9 @@ type zzTrack struct {
 }
 
 func (t *zzTrack) ClockRate() int                 { return t.rate }
-func (t *zzTrack) PTSEqualsDTS(*rtp.Packet) bool { return true }
+// the marker bit of the harness packets says whether PTS equals DTS (only such
+// packets may serve as reference points; B-frames do not)
+func (t *zzTrack) PTSEqualsDTS(p *rtp.Packet) bool { return p.Marker }
 
 // (3) a track that starts later is placed on the leading track's timeline:
 // startPTS*rate/leadRate + elapsed*rate/1e9
@@ -86,16 +88,23 @@ func ZzC15LaterTrack() {
 	d := &GlobalDecoder{}
 	d.Initialize()
 	ts0 := zzU32("ts0")
-	p0, ok0 := d.Decode(lead, &rtp.Packet{Header: rtp.Header{Timestamp: ts0}})
+	p0, ok0 := d.Decode(lead, &rtp.Packet{Header: rtp.Header{Timestamp: ts0, Marker: true}})
 	zzAssert(ok0, "leading track decodes")
 	zzAssert(p0 == 0, "leading track starts at 0")
 	delta := zzI64("delta")
 	zzAssume(delta >= 0)
 	zzAssume(delta < 1<<31)
-	p1, ok1 := d.Decode(lead, &rtp.Packet{Header: rtp.Header{Timestamp: ts0 + uint32(delta)}})
+	p1, ok1 := d.Decode(lead, &rtp.Packet{Header: rtp.Header{Timestamp: ts0 + uint32(delta), Marker: true}})
 	zzAssert(ok1, "leading track decodes (2)")
 	zzAssert(p1 == delta, "leading track: PTS = signed 32-bit difference")
-	p2, ok2 := d.Decode(other, &rtp.Packet{Header: rtp.Header{Timestamp: zzU32("ts1")}})
+	if zzParam("BFRAME", 0) == 1 {
+		// a packet of the leading track whose PTS differs from its DTS (B-frame): it is
+		// decoded, but it must not become the reference point for other tracks
+		back := int64(3003) // (a symbolic offset makes the query undecidable for cvc5's integer encoding)
+		pb, okb := d.Decode(lead, &rtp.Packet{Header: rtp.Header{Timestamp: ts0 + uint32(delta) + uint32(back), Marker: false}})
+		zzAssert(okb && pb == delta+back, "leading track: reordered frame decoded on the same timeline")
+	}
+	p2, ok2 := d.Decode(other, &rtp.Packet{Header: rtp.Header{Timestamp: zzU32("ts1"), Marker: true}})
 	zzAssert(ok2, "later track decodes")
 	// reference: floor(delta*r2/r1) + floor(elapsed*r2/1e9); the two floor
 	// divisions are the rescaling kernel proved against its 128-bit definition
